@@ -149,6 +149,15 @@ func solveAll(obls []*Obligation, workDir string, secs int, workers int) {
 					o.Result = &SolveResult{Status: "unsat", Solver: solvers[0].name + "(ground)", TimeS: dur, Output: out, File: lfile, Bytes: int(fi.Size()), Tried: []string{"ground:unsat"}}
 					return
 				}
+				if st != "sat" {
+					// the ground query is large: cvc5 is often faster than z3 on big quantifier-free array problems
+					st2, out2, dur2 := runSolver(context.Background(), solvers[2], lfile, 2*liteSecs(secs))
+					if st2 == "unsat" {
+						fi, _ := os.Stat(lfile)
+						o.Result = &SolveResult{Status: "unsat", Solver: solvers[2].name + "(ground)", TimeS: dur + dur2, Output: out2, File: lfile, Bytes: int(fi.Size()), Tried: []string{"ground:z3:" + st, "ground:cvc5:unsat"}}
+						return
+					}
+				}
 			}
 			text := o.ctx.render(o.PC, o.Goal, o.Cover, o.Cands, o.Lens, false)
 			os.WriteFile(file, []byte(header+text), 0o644)
@@ -214,6 +223,11 @@ func retryFailed(obls []*Obligation, workDir string, secs int) int {
 			lite := o.ctx.render(o.PC, o.Goal, false, o.Cands, o.Lens, true)
 			os.WriteFile(lfile, []byte("; retry of "+o.ID+"\n"+lite), 0o644)
 			st, out, dur := runSolver(context.Background(), solvers[0], lfile, 30)
+			if st != "unsat" && st != "sat" {
+				if st2, out2, dur2 := runSolver(context.Background(), solvers[2], lfile, 60); st2 == "unsat" {
+					st, out, dur = st2, out2, dur+dur2
+				}
+			}
 			if st == "unsat" {
 				fi, _ := os.Stat(lfile)
 				o.Result = &SolveResult{Status: "unsat", Solver: solvers[0].name + "(ground,retry)", TimeS: dur, Output: out, File: lfile, Bytes: int(fi.Size()), Tried: []string{"retry-ground:unsat"}}
